@@ -316,7 +316,16 @@ impl<'a> Gen<'a> {
                 };
                 let sub = if composite { self.sels(rng, &inner_ty, depth + 1, op_kind) } else { vec![] };
                 let sel = Sel::Field {
-                    alias: if unaliased { None } else { Some(self.alias(rng)) },
+                    // `name: name` has the same response key as the bare field
+                    alias: if unaliased {
+                        if rng.chance(1, 4) {
+                            Some(f.name.clone())
+                        } else {
+                            None
+                        }
+                    } else {
+                        Some(self.alias(rng))
+                    },
                     name: f.name.clone(),
                     args,
                     dirs: self.exec_dirs(rng, "FIELD", !sub_root),
